@@ -156,7 +156,32 @@ def gen_trace_case(r, maxsteps):
 
 
 def gen_model_traces(r, quick):
-    return []
+    """one-step refinement traces for ElitistCMA, CMSA, CEM and whole deterministic runs of SimplexDownhill"""
+    out = []
+    k, steps = (10, 30) if quick else (100, 80)
+    for _ in range(k):     # ElitistCMA: no box (acceptance is on the penalized fitness); plateau makes unsuccessful/failed steps frequent
+        ops, n, kind, box = gen_objective(r, allow_box=False)
+        ops.append("opt ecma " + nums([0, 0, 0, r.choice(SIGMAS)]))
+        ops.append("ecmatrace %d %d %s" % (r.range(1, 10 ** 6), r.range(5, steps), nums(gen_x0(r, n, None)[0])))
+        out.append(ops)
+    for _ in range(k):
+        ops, n, kind, box = gen_objective(r)
+        _, oline, _ = gen_opt(r, n, box is not None, kinds=["cmsa"])
+        ops.append(oline)
+        ops.append("cmsatrace %d %d %s" % (r.range(1, 10 ** 6), r.range(2, steps // 2), nums(gen_x0(r, n, box)[0])))
+        out.append(ops)
+    for _ in range(k):
+        ops, n, kind, box = gen_objective(r, allow_box=False)
+        _, oline, _ = gen_opt(r, n, False, kinds=["cem"])
+        ops.append(oline)
+        ops.append("cemtrace %d %d %s" % (r.range(1, 10 ** 6), r.range(2, steps // 3), nums(gen_x0(r, n, None)[0])))
+        out.append(ops)
+    for _ in range(2 * k):
+        ops, n, kind, box = gen_objective(r, allow_box=False)
+        ops.append("opt simplex")
+        ops.append("simplexrun %d %s" % (r.range(1, 2 * steps), nums(gen_x0(r, n, None)[0])))
+        out.append(ops)
+    return out
 
 
 def gen_coeff_case(r):
@@ -203,7 +228,9 @@ def run_case(ctx, hcmd, dcmd, ops, timeout=600, stats=None):
     if rc != 0:
         r.crash, r.ok = True, False
     dops, expect = [], []
+    lastobj = "sphere 0"
     for i, o in enumerate(ops):
+        if o.startswith("obj "): lastobj = o[4:]
         line = r.impl[i] if i < len(r.impl) else ""
         if "!oracle" in line:
             r.oracle.append(line.split(" !oracle")[0][:200] + " ... " + line[line.index("!oracle"):][:300]); r.ok = False
@@ -211,7 +238,12 @@ def run_case(ctx, hcmd, dcmd, ops, timeout=600, stats=None):
         if o.startswith("coeffs"):
             dops.append(o); expect.append(("equal", payload))
         elif o.startswith("cmatrace") and payload.startswith("trace"):
-            dops.append("xtrace " + payload); expect.append(("verdict", None))
+            dops.append("xtrace " + payload); expect.append(("verdict", "cma"))
+        elif o.split()[0] in ("ecmatrace", "cmsatrace", "cemtrace") and payload.startswith("trace"):
+            dops.append("x" + o.split()[0][:-5] + " " + payload); expect.append(("verdict", o.split()[0][:-5]))
+        elif o.startswith("simplexrun") and payload.startswith("simplex"):
+            t = o.split()
+            dops.append("xsimplex %s ## %s ## %s ## %s" % (lastobj, t[1], ",".join(t[2:]), payload)); expect.append(("verdict", "simplex"))
         else:
             dops.append(""); expect.append(("skip", None))
     pd = subprocess.run(dcmd, input="\n".join(dops) + "\n", stdout=subprocess.PIPE, stderr=subprocess.PIPE,
@@ -227,9 +259,9 @@ def run_case(ctx, hcmd, dcmd, ops, timeout=600, stats=None):
         elif ex == "verdict":
             m = re.match(r"ok gens=(\d+) bits=(\d+) tol=(\d+) ties=(\d+)", got)
             if m and stats is not None:
-                stats["gens_bits"] = stats.get("gens_bits", 0) + int(m.group(2))
-                stats["gens_tol"] = stats.get("gens_tol", 0) + int(m.group(3))
-                stats["gens_skipped_unstable_ties"] = stats.get("gens_skipped_unstable_ties", 0) + int(m.group(4))
+                stats[want + "_steps_bits"] = stats.get(want + "_steps_bits", 0) + int(m.group(2))
+                stats[want + "_steps_tol"] = stats.get(want + "_steps_tol", 0) + int(m.group(3))
+                stats["steps_skipped_unstable_ties"] = stats.get("steps_skipped_unstable_ties", 0) + int(m.group(4))
             if not m:
                 if r.diff_at is None: r.diff_at, r.why = i, "update-differs:" + got.replace(" ", "-")[:60]
                 r.ok = False
@@ -245,7 +277,7 @@ def classify(ops, res):
         return f"crash:{info['opt']}:{tag[:40]}", f"harness aborted ({tag}) on ops {ops}"
     if info["opt"] == "vdcma" and info["kind"] == "coeffs" and info["n"] <= 5 and tags == ["coefficients-inadmissible"]:
         return ("F14:vdcma-learning-rates-not-positive:n<=5", f"VD-CMA learning rates c1 and cMu are negative (n<5) or zero (n=5): {res.impl[-1][:200]}; ops {ops}")
-    if info["opt"] == "vdcma" and info["n"] <= 5 and tags and set(tags) <= {"step-size-not-positive", "non-finite", "covariance-not-positive-definite", "mean-or-path-non-finite"}:
+    if info["opt"] == "vdcma" and info["n"] <= 5 and tags and set(tags) <= {"step-size-not-positive", "non-finite", "covariance-not-positive-definite", "mean-or-path-non-finite", "not-converged"}:
         return ("F12:vdcma-nan-after-stagnation", f"VD-CMA reports NaN point / value / step size after stagnating (negative learning rates, F14); ops {ops}")
     if info["opt"] == "cma" and "covariance-not-symmetric" in tags:
         return ("F13:cma-covariance-asymmetry", f"CMA covariance matrix is not symmetric beyond rounding ({res.oracle[0][-150:]}); ops {ops}")
